@@ -22,6 +22,145 @@ ASSUMPTIONS = ["import forms covered end to end: `import pkg.sub.mod` + attribut
 EXEC_LOG = []
 
 
+def run_object_kinds(ctx, res, dds):
+    """which objects of an accepted module are tracked (model: Dds.objTracking): `_is_authorized_type` against the model for every
+    kind of type x the four settings of the two container options, then end to end: a variable of each kind read by a kept function
+    is edited under each setting - its signature changes exactly when the model tracks the kind; and `accept_module` given a module
+    OBJECT accepts that module, not the package around it."""
+    import collections
+    import datetime
+    import decimal
+    import pathlib
+    import types
+    from dds import _config as cfg
+    from dds._eval_ctx import EvalMainContext
+    from dds._retrieve_objects import _is_authorized_type
+    from dds.structures import DDSException, FunctionInteractions
+    from dds.introspect import _accepted_packages
+    before = set(_accepted_packages)
+    nomod = type("NoMod", (), {"__module__": "c14_no_such_module_xyz"})
+    kinds = [("scalar", t) for t in (int, float, str, bytes, bool, type(None), pathlib.PurePosixPath, datetime.datetime, datetime.date,
+                                     datetime.time, datetime.timedelta, datetime.timezone)]
+    kinds += [("tuple", tuple), ("function", types.FunctionType), ("module", types.ModuleType), ("list", list), ("dict", dict),
+              ("dict", collections.OrderedDict), ("noModule", nomod), ("ofAccepted", FunctionInteractions),
+              ("ofForeign", decimal.Decimal), ("ofForeign", collections.Counter), ("ofForeign", pathlib.PosixPath), ("ofForeign", set), ("ofForeign", frozenset)]
+    g = EvalMainContext(None, {"dds", "__main__", "__global__"}, {}, {})
+    reqs, impl = [], []
+    settings = [(True, True), (False, True), (True, False), (False, False), (True, True)]
+    try:
+        for (al, ad) in settings:
+            cfg.set_option("accept_list", al)
+            cfg.set_option("accept_dict", ad)
+            for (kind, tpe) in kinds:
+                try:
+                    r = "tracked" if _is_authorized_type(tpe, g) else "ignored"
+                except DDSException:
+                    r = "refused"
+                except BaseException as e:
+                    r = "crash %s" % type(e).__name__
+                reqs.append({"op": "objkind", "accept_list": al, "accept_dict": ad, "kind": kind, "type": getattr(tpe, "__name__", str(tpe))})
+                impl.append(r)
+                res.evaluations += 1
+                res.count("object_kind_cases")
+                res.nontrivial("objkind %s %s %s" % (tpe.__name__, al, ad))
+        if ctx["driver_ok"]:
+            for rq, a, r in zip(reqs, common.drv_batch(reqs), impl):
+                if a.get("ok") != r:
+                    res.disagreements.append({"what": "_is_authorized_type differs from the model (objTracking)", "request": rq, "impl": r, "model": a})
+        # scalars, tuples, functions and modules are tracked whatever the options (theorem options_govern_containers_only)
+        for rq, r in zip(reqs, impl):
+            if rq["kind"] in ("scalar", "tuple", "function", "module") and r != "tracked":
+                res.violations.append({"what": "objects of type %s of an accepted module are %s with accept_list=%s accept_dict=%s: the container options govern "
+                                               "lists and dicts only" % (rq["type"], r, rq["accept_list"], rq["accept_dict"]), "input": rq, "kf": None})
+        # ---- end to end
+        store = ws.recording_store()
+        dds.set_store(store)
+        lits = {"tuple": lambda v: "(1, %d)" % v, "list": lambda v: "[1, %d]" % v, "dict": lambda v: "{'a': %d}" % v, "scalar": lambda v: "%d" % v,
+                "nested_tuple": lambda v: "((1, %d), 'x')" % v}
+        model_kind = {"nested_tuple": "tuple"}
+        with ws.Workspace("c14k") as w:
+            for (al, ad) in settings[:4]:
+                cfg.set_option("accept_list", al)
+                cfg.set_option("accept_dict", ad)
+                for kname in sorted(lits):
+                    root = w.unique("c14v")
+                    src = lambda v: "import dds\n\nSHAPE = %s\n\ndef top():\n    return '%s' + str(SHAPE)\n" % (lits[kname](v), root)
+                    mod = [w.write_module(root, src(2), accept=True)]
+                    path = "/pv_" + root
+
+                    def sig():
+                        store.synced.clear()
+                        try:
+                            v = dds.keep(path, mod[0].top)
+                            return ("ok", store.synced[-1][path], v)
+                        except BaseException as e:
+                            ws.reset_dds_state()
+                            return ("exc", type(e).__name__, str(e)[:160])
+                    s1 = sig()
+                    mod[0] = w.rewrite_module(root, src(40))
+                    s2 = sig()
+                    res.evaluations += 2
+                    res.count("e2e_object_kind_edits")
+                    res.nontrivial("e2e objkind %s %s %s" % (kname, al, ad))
+                    mk = model_kind.get(kname, kname)
+                    tracked = mk in ("scalar", "tuple") or (mk == "list" and al) or (mk == "dict" and ad)
+                    inp = {"accept_list": al, "accept_dict": ad, "module": src(2), "edit": "SHAPE = " + lits[kname](40)}
+                    if s1[0] != "ok" or s2[0] != "ok":
+                        res.violations.append({"what": "a kept function reading a module-level %s fails under accept_list=%s accept_dict=%s: %s / %s" % (kname, al, ad, s1, s2),
+                                               "input": inp, "kf": None})
+                    elif tracked and (s1[1] == s2[1] or s2[2] != root + str(eval(lits[kname](40)))):
+                        res.violations.append({"what": "a module-level %s of an accepted module is edited (accept_list=%s accept_dict=%s): the kept function that reads it keeps "
+                                                       "its signature / serves the old value: %s -> %s" % (kname, al, ad, s1, s2), "input": inp, "kf": None})
+                    elif (not tracked) and s1[1] != s2[1]:
+                        res.violations.append({"what": "a module-level %s is not tracked under accept_list=%s accept_dict=%s, yet its edit changed a signature: %s -> %s" % (
+                            kname, al, ad, s1, s2), "input": inp, "kf": None})
+            cfg.reset_option("accept_list")
+            cfg.reset_option("accept_dict")
+            # accept_module(<module object>): the module itself is accepted, not the package it lives in
+            for depth in (1, 2, 3):
+                for p_ in list(_accepted_packages):
+                    if p_ not in before:
+                        _accepted_packages.discard(p_)
+                root = w.unique("c14mo")
+                pk = ".".join([root] + ["etl%d" % i for i in range(1, depth)])
+                vsrc = lambda v: "def rate():\n    return %d\n" % v
+                w.write_module(pk + ".vendor", vsrc(3), accept=False)
+                msrc = "import dds\nfrom %s import vendor\n\ndef own():\n    return 1\n\ndef top():\n    return own() + vendor.rate()\n" % pk
+                pm = [w.write_module(pk + ".pipeline", msrc, accept=False)]
+                dds.accept_module(pm[0])
+                path = "/pmo_" + root
+
+                def sigm():
+                    store.synced.clear()
+                    try:
+                        v = dds.keep(path, pm[0].top)
+                        return ("ok", store.synced[-1][path], v)
+                    except BaseException as e:
+                        ws.reset_dds_state()
+                        return ("exc", type(e).__name__, str(e)[:160])
+                m1 = sigm()
+                w.rewrite_module(pk + ".vendor", vsrc(9))
+                pm[0] = w.rewrite_module(pk + ".pipeline", msrc)
+                m2 = sigm()
+                res.evaluations += 2
+                res.count("e2e_accept_module_object")
+                res.nontrivial("accept_module(object) depth %d" % depth)
+                added = sorted(str(p_) for p_ in set(_accepted_packages) - before)
+                if m1[0] != "ok" or m2[0] != "ok" or m1[1] != m2[1] or added != [pk + ".pipeline"]:
+                    res.violations.append({"what": "dds.accept_module(<module object %s>) accepted %s; editing the sibling module %s.vendor, which was never accepted, "
+                                                   "gives %s -> %s (the signature must not move)" % ((pk + ".pipeline").replace(root, "ROOT"), [a.replace(root, "ROOT") for a in added],
+                                                                                                    pk.replace(root, "ROOT"), m1, m2),
+                                           "input": {"accepted_by_object": (pk + ".pipeline").replace(root, "ROOT"), "caller": msrc.replace(root, "ROOT")}, "kf": None})
+    except BaseException as e:
+        res.violations.append({"what": "the object-kind stratum failed: %s: %s" % (type(e).__name__, str(e)[:300]), "input": {}, "kf": None})
+    finally:
+        cfg.reset_option("accept_list")
+        cfg.reset_option("accept_dict")
+        for p_ in list(_accepted_packages):
+            if p_ not in before:
+                _accepted_packages.discard(p_)
+
+
 def run(ctx):
     res = common.Result()
     rng = ctx["rng"]
@@ -416,6 +555,7 @@ def run(ctx):
             shutil.rmtree(proj, ignore_errors=True)
     # accepted code reached through imports made in function bodies: the relative forms inside the __init__.py of a sub-package
     # (shared with the C01 check)
+    run_object_kinds(ctx, res, dds)
     from . import c01s, pipeline
     c01s.run_imports_in_package_init(ctx, res, thorough)
     pipeline.close_ref()
